@@ -187,6 +187,10 @@ class IterativeAggregation(AccessorBase):
                 raise ValueError(
                     f"Value {begin} for 'begin' not found in index for dim {dim}"
                 ) from None
+            if begin_ix == 0:
+                raise ValueError(
+                    f"Value {begin} for 'begin' not found in index for dim {dim}"
+                )
         else:
             begin_ix = self._obj.sizes[dim]
 
@@ -197,6 +201,10 @@ class IterativeAggregation(AccessorBase):
                 raise ValueError(
                     f"Value {end} for 'end' not found in index for dim {dim}"
                 ) from None
+            if end_ix == -1:
+                raise ValueError(
+                    f"Value {end} for 'end' not found in index for dim {dim}"
+                )
         else:
             end_ix = 0
 
